@@ -131,7 +131,7 @@ def run(ctx, rep):
         rep.instance(R2, ok=ok, nontrivial=('Quantified', attr))
         if not ok:
             rep.finding(R2, f'C15.R2/Quantified.{attr}', m.relfile(LEX), f'Quantified.{attr}',
-                        f'is not {"(own quantifier, *body quantifiers)" if attr == "quantifiers" else "the body\'s " + attr} (got {r!r})')
+                        ('is not (own quantifier, *body quantifiers)' if attr == 'quantifiers' else f"is not the body's {attr}") + f' (got {r!r})')
     fq = m.func(LEX, 'Quantified.substitute')
     for pn, po in (('n', 'o'), ('n', 'n')):
         r = it.safe(fq, [qs, pn, po])
